@@ -1,12 +1,10 @@
-HOOK_COMMITS = []
-
-CHECKS = [
- {"property_id": "C18",
-  "text": "Coq theorems (Props/C18.v: C18_refines, C18_stack, C18_clear, window lengths) prove for every op sequence and size hints that the modelled serialize buffer refines a two-ended tape; the model is tied to writer.go by a correspondence run (exhaustive small op sequences + seeded random ones, Bytes/window/layers compared after every op) and an implementation-side tape oracle.",
-  "note": "Trusted: Coq kernel, hand transcription of writer.go:110-218 into coq/Model/C18Model.v (validated by the correspondence), extraction (ExtrOcamlBasic), OCaml runner glue, Go harness. Go slice semantics as modelled.",
-  "technique": "Coq proof (refinement invariant by induction over ops) + model/implementation correspondence check"},
-]
-
+"""MANIFEST sources: lib/manifest/Cxx.json (property_id, text, note, technique[, design_ref]),
+lib/manifest/not_applicable.json (optional list), lib/manifest/hook_commits.json (optional list)."""
+import glob, json, os
+_d = os.path.join(os.path.dirname(os.path.abspath(__file__)), 'manifest')
+CHECKS = [json.load(open(f)) for f in sorted(glob.glob(os.path.join(_d, 'C*.json')))]
+HOOK_COMMITS = json.load(open(os.path.join(_d, 'hook_commits.json'))) if os.path.exists(os.path.join(_d, 'hook_commits.json')) else []
 _ALL = ["C%02d" % i for i in range(1, 21)]
 _claimed = {c["property_id"] for c in CHECKS}
-NOT_APPLICABLE = [{"property_id": p, "reason": "not yet built in this session (work in progress; see DESIGN.md section 7 work order) - will be claimed once its model, theorems and correspondence check exist"} for p in _ALL if p not in _claimed]
+_na = json.load(open(os.path.join(_d, 'not_applicable.json'))) if os.path.exists(os.path.join(_d, 'not_applicable.json')) else {}
+NOT_APPLICABLE = [{"property_id": p, "reason": _na.get(p, "check not built yet in this development (DESIGN.md section 7 work order); it will be claimed once its model, theorems and correspondence check exist")} for p in _ALL if p not in _claimed]
